@@ -39,11 +39,20 @@ type Obligation struct {
 	PathHint string `json:"path_hint,omitempty"`
 }
 
+// parentRef: an incoming edge of a join (its condition and the state at the end of that edge).
+type parentRef struct {
+	cond string
+	st   *State
+}
+
 type State struct {
 	pc     string
 	cells  map[*ssa.Alloc]Val
 	heap   map[string]string
 	epoch  string
+	// parents: set by a join of states with different epochs; a heap component that no incoming state had
+	// materialised is, when first read, the merge of the incoming states' (lazily created) terms - not a fresh constant
+	parents []parentRef
 	ghosts map[string]Val
 	ac     string // allocation counter
 	defers []deferEntry
@@ -54,7 +63,7 @@ type State struct {
 }
 
 func (s *State) clone() *State {
-	n := &State{pc: s.pc, epoch: s.epoch, ac: s.ac, mapVer: s.mapVer}
+	n := &State{pc: s.pc, epoch: s.epoch, ac: s.ac, mapVer: s.mapVer, parents: s.parents}
 	n.cells = make(map[*ssa.Alloc]Val, len(s.cells))
 	for k, v := range s.cells {
 		n.cells[k] = v
@@ -909,6 +918,10 @@ func (g *Gen) join(b *ssa.BasicBlock, ins []edge) *State {
 	if !same {
 		g.nfresh++
 		res.epoch = fmt.Sprintf("j%d", g.nfresh)
+		res.parents = nil
+		for _, e := range ins {
+			res.parents = append(res.parents, parentRef{cond: e.cond, st: e.st})
+		}
 	}
 	// heaps: keys known in any pred
 	keys := map[string]bool{}
@@ -1279,6 +1292,7 @@ func (g *Gen) havocLoop(li *loopInfo, base *State) *State {
 		st.heap = map[string]string{}
 		g.nfresh++
 		st.epoch = fmt.Sprintf("L%d_%d", li.ordinal, g.nfresh)
+		st.parents = nil
 		st.ac = g.fresh("ac", "Int")
 		for name, v := range st.ghosts {
 			st.ghosts[name] = g.havocGhost(name, v)
@@ -1296,6 +1310,7 @@ func (g *Gen) havocLoop(li *loopInfo, base *State) *State {
 			st.heap = kept
 			g.nfresh++
 			st.epoch = fmt.Sprintf("L%d_%d", li.ordinal, g.nfresh)
+			st.parents = nil
 		} else {
 			var ks []string
 			for k := range li.heapKeys {
@@ -1396,6 +1411,7 @@ func (g *Gen) loopKeyEpoch(st *State, li *loopInfo, key string) {
 	// Changing the epoch affects all lazily created keys, which is sound (fresh = unconstrained).
 	g.nfresh++
 	st.epoch = fmt.Sprintf("L%d_%d", li.ordinal, g.nfresh)
+	st.parents = nil
 }
 
 func (g *Gen) havocGhost(name string, v Val) Val {
